@@ -227,6 +227,8 @@ structure Mgr where
   seq : Box := { state := 0 }
   /-- the containers that went through the seq box -/
   parked : List (List Entry) := []
+  /-- users whose access hash the client knows -/
+  users : List Nat := []
   deriving Repr
 
 def Mgr.emit (m : Mgr) (evs : List Event) : Mgr := { m with trace := m.trace ++ evs }
@@ -389,6 +391,15 @@ def Mgr.handleSeq (O : Orders) (m : Mgr) (container : List Entry) (a b : Nat) : 
     let m := m.applySeqEvs O r.2
     m.withSeq r.1
 
+/-- `messageUpdatesPeersKnown`: every non-channel message of the container refers only to users
+whose access hash is known. -/
+def Mgr.peersKnown (m : Mgr) (container : List Entry) : Bool :=
+  container.all fun e => !(e.kind == .msg && e.user != 0) || m.users.contains e.user
+
+/-- `saveUserHashes` with the users a difference answer comes with. -/
+def Mgr.learnUsers (m : Mgr) (es : List Entry) : Mgr :=
+  { m with users := m.users ++ (es.filter (·.user != 0)).map (·.user) }
+
 def ownCommon (e : Entry) : Bool :=
   e.kind == .msg || e.kind == .other || e.kind == .qts || e.kind == .qother
 
@@ -446,12 +457,20 @@ def Mgr.getDifference (O : Orders) : Nat → Mgr → Mgr
       let m := m.seqOp O 0 (.seq (seqCalls .storePts .boxSetPts [] O.diffTooLong) p [])
       if O.diffTooLong.contains .recurse then Mgr.getDifference O fuel m else m
     | some (.diff msgs enc others p q slice) =>
+      let m := m.learnUsers (msgs ++ others)   -- `saveUserHashes(diff.Users)`
       let calls := if slice then O.diffSlice else O.diffDifference
       let own := if O.ownDirect then others.filter ownCommon else []
       let rest := if O.ownDirect then others.filter (fun e => !ownCommon e) else others
       -- interpret the branch: re-route, dispatch, persist+set — in the regenerated order
       let m := calls.foldl (Mgr.diffBranchStep O calls (if slice then O.sliceGuard else O.diffGuard) msgs enc own rest p q) m
       if calls.contains .recurse then Mgr.getDifference O fuel m else m
+
+def fuel0 : Nat := 64
+
+/-- `handleUpdates` for a container (`seq_start = a`, `seq = b`; 0 0: unnumbered): if a message
+refers to a user with an unknown access hash the container is dropped and the difference is fetched. -/
+def Mgr.handleContainer (O : Orders) (m : Mgr) (container : List Entry) (a b : Nat) : Mgr :=
+  if m.peersKnown container then m.handleSeq O container a b else m.getDifference O fuel0
 
 def Mgr.chDiffPreludeStep (O : Orders) (c : Nat) (st : Mgr × Option ChDiffAns) (call : Call) : Mgr × Option ChDiffAns :=
   match call with
@@ -518,7 +537,7 @@ def Mgr.settle (O : Orders) : Nat → Mgr → Mgr
       let m := (m.chans.map (·.id)).foldl (Mgr.drainChan O fuel) m
       let conts := m.internal
       let m := { m with internal := [] }
-      let m := conts.foldl (Mgr.applyCombined O) m
+      let m := conts.foldl (fun (m : Mgr) cont => m.handleContainer O cont 0 0) m
       Mgr.settle O fuel m
 
 inductive Action where
@@ -538,9 +557,8 @@ inductive Action where
   | known (c : Nat)                    -- the client learns the access hash of channel `c`
   | pushSeq (a b : Nat) (ids : List Nat)  -- a container numbered `seq_start = a .. seq = b` arrives
   | emitSeq (n : Nat)                  -- the server's seq has reached `n` (containers that never arrive)
+  | knowUsers (ids : List Nat)         -- the client learns the access hashes of these users
   deriving Repr
-
-def fuel0 : Nat := 64
 
 def Mgr.act (O : Orders) (m : Mgr) : Action → Mgr
   | .emit n => { m with w := { m.w with emitted := min m.w.log.length (m.w.emitted + n) } }
@@ -549,7 +567,7 @@ def Mgr.act (O : Orders) (m : Mgr) : Action → Mgr
     let idx := ids.foldl (fun acc i => match m.w.log.findIdx? (·.id == i) with
       | some j => max acc (j + 1) | none => acc) m.w.emitted
     let m := { m with w := { m.w with emitted := idx } }
-    if es.isEmpty then m else m.applyCombined O es
+    if es.isEmpty then m else m.handleContainer O es 0 0
   | .affected id =>
     -- `internalState.handleAffected`: common markers go to the pts box, channel markers to the
     -- (tracked) channel's worker, which hands them to its box
@@ -589,8 +607,9 @@ def Mgr.act (O : Orders) (m : Mgr) : Action → Mgr
     let idx := ids.foldl (fun acc i => match m.w.log.findIdx? (·.id == i) with
       | some j => max acc (j + 1) | none => acc) m.w.emitted
     let m := { m with w := { m.w with emitted := idx, seqNow := max m.w.seqNow b } }
-    if es.isEmpty then m else m.handleSeq O es a b
+    if es.isEmpty then m else m.handleContainer O es a b
   | .emitSeq n => { m with w := { m.w with seqNow := max m.w.seqNow n } }
+  | .knowUsers ids => { m with users := m.users ++ ids }
 
 /-- `Manager.Run` from a persisted state: startup differences, then the actions, each followed
 by quiescence. -/
